@@ -27,10 +27,13 @@ type Atom struct {
 	// inequality atoms also carry their polynomial: p > 0 (strict) or p >= 0
 	p      *Poly
 	strict bool
+	// eq: the polynomial of an equality / disequality atom (eq == 0 or eq != 0); never used to decide
+	// anything inside the engine, only reported to clients (AtomSymbols)
+	eq *Poly
 }
 
 func (a Atom) Not() Atom {
-	n := Atom{key: a.neg, neg: a.key}
+	n := Atom{key: a.neg, neg: a.key, eq: a.eq}
 	if a.p != nil {
 		n.p, n.strict = a.p.Neg(), !a.strict
 	}
